@@ -72,7 +72,7 @@ PROPERTIES = {
         'explanation': 'per-bunch functional postconditions (ghost cell n,x,y) and frames of every transport map',
     },
     'C15': {
-        'units': [sm.KickMapApplyTo, sm.FokkerPlanckApplyTo, sm.UpdateSM, sm.CalcCoefficiants, io.HDF5AppendTracks, mainspec.MainTrackingFile, mainloop.MainLoop],
+        'units': [sm.KickMapApplyTo, sm.FokkerPlanckApplyTo, sm.UpdateSM, sm.CalcCoefficiants, io.HDF5AppendTracks, mainspec.MainTrackingFile, mainloop.MainLoop, io.ProgramOptionsGetters],
         'leaves': [leaf.FPApplyToLeaf, leaf.KickApplyToLeaf, leaf.PSxLeaf, leaf.PSyLeaf],
         'lemmas': [sm.lemmas_weights],
         'level': 'other',
@@ -86,7 +86,7 @@ PROPERTIES = {
     },
     'C09': {
         'units': [ps.RulerCtor, ps.SimpsonWeights, ps.UpdateXProjection, ps.UpdateYProjection, ps.Integrate, ps.Normalize,
-                  ps.Average, ps.Variance, ps.Swap, ps.Assign, ps.PhaseSpaceCtor, ps.PhaseSpaceCtor8, ps.PhaseSpaceCtor12, ps.PhaseSpaceCopyCtor, ps.CreateFromProjections, ps.Gaus, mainspec.MainStartDistribution],
+                  ps.Average, ps.Variance, ps.Swap, ps.Assign, ps.PhaseSpaceCtor, ps.PhaseSpaceCtor8, ps.PhaseSpaceCtor12, ps.PhaseSpaceCopyCtor, ps.CreateFromProjections, ps.Gaus, mainspec.MainStartDistribution, io.ProgramOptionsGetters],
         'lemmas': [ps.lemmas_normalize],
         'native_sweep': {'harness': 'ps_replay', 'runs': [['moments', N_, nb_, sd_] for N_ in (8, 9, 16, 17, 33) for nb_ in (1, 2, 3, 5) for sd_ in (1, 2)]},
         'level': 'proof',
@@ -100,7 +100,7 @@ PROPERTIES = {
         'technique': TECH,
     },
     'C06': {
-        'units': [ef.PadBunchProfiles, ef.WakePotential, ef.ElectricFieldScale, ef.ElectricFieldCtor, ef.ElectricFieldCtor11, ef.InitWakeLossFFT],
+        'units': [ef.PadBunchProfiles, ef.WakePotential, ef.ElectricFieldScale, ef.ElectricFieldCtor, ef.ElectricFieldCtor11, ef.InitWakeLossFFT, io.ProgramOptionsGetters],
         'native_sweep': {'harness': 'ef_replay', 'runs': ef.EF_RUNS + [['wake', 16, '1', 0, n_, 7] for n_ in (32, 33, 34, 50, 97, 128)] + [['fftw', 2, 64], ['fftw', 127, 129], ['fftw', 255, 257], ['fftw', 511, 513], ['fftw', 1023, 1025], ['fftw', 2048, 2048]]},
         'lemmas': [],
         'level': 'proof',
@@ -139,7 +139,7 @@ PROPERTIES = {
         'technique': TECH,
     },
     'C16': {
-        'units': Z_UNITS,
+        'units': Z_UNITS + [io.ProgramOptionsGetters],
         'native_sweep': {'harness': 'ef_replay', 'runs': [['z', n_] for n_ in list(range(2, 40)) + [255, 256, 257, 1023, 1024]] + z.FACTORY_SWEEP + [['zfile']]},
         'lemmas': [],
         'level': 'other',
@@ -158,7 +158,7 @@ PROPERTIES = {
     },
     'C03': {
         'units': [sm.RFCalcKick, sm.RFKickMapLinearCtor, sm.RFKickMapSinCtor, sm.DriftMapCtor, sm.KickMapCtor, sm.UpdateSM, sm.KickMapApply,
-                  sm.CalcCoefficiants, ps.RulerCtor, mainspec.MainConfig, mainspec.MainPhysics, mainspec.MainWiring],
+                  sm.CalcCoefficiants, ps.RulerCtor, mainspec.MainConfig, mainspec.MainPhysics, mainspec.MainWiring, io.ProgramOptionsGetters],
         'lemmas': [sm.lemmas_c03, sm.lemmas_weights],
         'level': 'other',
         'claim': 'one-step law: the RF map displaces row x by tan(angle)*(zerobin-x) cells (sinusoidal: the stated sine law), the drift displaces row y by slip*p(y)/delta_q with slip0 = angle = 2*pi/steps, '
@@ -169,7 +169,7 @@ PROPERTIES = {
         'technique': TECH,
     },
     'C04': {
-        'units': [sm.FokkerPlanckCtor, sm.FokkerPlanckApply, ps.Variance, ps.Average, ps.RulerCtor, mainspec.MainPhysics, mainspec.MainWiring],
+        'units': [sm.FokkerPlanckCtor, sm.FokkerPlanckApply, ps.Variance, ps.Average, ps.RulerCtor, mainspec.MainPhysics, mainspec.MainWiring, io.ProgramOptionsGetters],
         'lemmas': [sm.lemmas_fp, sm.lemmas_c04, ps.lemmas_ruler],
         'level': 'other',
         'claim': 'per-step moment law of the damping/diffusion operator the constructor builds (all four variants, both stencils): m0=1, mean -> (1-e1)*mean, second moment -> (1-2e1)v + 2e1 - c*e1*delta^2 with 0<=c<=1, '
@@ -183,7 +183,7 @@ PROPERTIES = {
         'units': SM_KICK + SM_FP + [sm.IdentityApply, sm.KickMapApplyTo, sm.FokkerPlanckApplyTo,
                                     ps.RulerCtor, ps.SimpsonWeights, ps.UpdateXProjection, ps.UpdateYProjection, ps.Integrate, ps.Normalize, ps.Average, ps.Variance, ps.Swap, ps.MakePSFromTXTLoop, ps.PhaseSpaceCtor, ps.PhaseSpaceCtor8, ps.PhaseSpaceCtor12, ps.PhaseSpaceCopyCtor, ps.CreateFromProjections, ps.Gaus,
                                     ef.PadBunchProfiles, ef.WakePotential, ef.UpdateCSR, ef.ElectricFieldCtor, ef.ElectricFieldCtor11, ef.InitWakeLossFFT,
-                                    mainspec.MainConfig, mainspec.MainTrackingFile, mainspec.MainStartDistribution, io.HDF5FileSources, io.HDF5AppendField, io.HDF5AppendTracks, io.ReadPhaseSpace] + Z_UNITS,
+                                    mainspec.MainConfig, mainspec.MainTrackingFile, mainspec.MainStartDistribution, io.HDF5FileSources, io.HDF5AppendField, io.HDF5AppendTracks, io.ReadPhaseSpace, io.ProgramOptionsGetters] + Z_UNITS,
         'leaves': [leaf.UpperPow2Leaf, leaf.FPApplyToLeaf, leaf.KickApplyToLeaf, leaf.PSxLeaf, leaf.PSyLeaf],
         'lemmas': [],
         'level': 'other',
@@ -197,7 +197,8 @@ PROPERTIES = {
         'technique': TECH,
     },
     'C19': {
-        'units': [mainspec.MainWiring, dynrf.CalcModulation, dynrf.DynRFLinearCtor, dynrf.DynRFSinCtor, dynrf.DynCalcKick, dynrf.DynApply, dynrf.GetPastModulation,
+        'main_scenarios': ['rfkicks'],
+        'units': [mainspec.MainWiring, io.ProgramOptionsGetters, dynrf.CalcModulation, dynrf.DynRFLinearCtor, dynrf.DynRFSinCtor, dynrf.DynCalcKick, dynrf.DynApply, dynrf.GetPastModulation,
                   sm.RFCalcKick, sm.RFKickMapLinearCtor, sm.RFKickMapSinCtor],
         'lemmas': [dynrf.lemmas_c19],
         'level': 'other',
@@ -210,7 +211,7 @@ PROPERTIES = {
         'technique': TECH,
     },
     'C05': {
-        'units': [mainloop.MainLoop, mainspec.MainConfig, mainspec.MainWiring, sm.WakePotentialMapUpdate, ef.ElectricFieldScale, sm.RFCalcKick, sm.DriftMapCtor, sm.FokkerPlanckCtor, ef.WakePotential, sm.UpdateSM, sm.KickMapApply],
+        'units': [mainloop.MainLoop, mainspec.MainConfig, mainspec.MainWiring, io.ProgramOptionsGetters, sm.WakePotentialMapUpdate, ef.ElectricFieldScale, sm.RFCalcKick, sm.DriftMapCtor, sm.FokkerPlanckCtor, ef.WakePotential, sm.UpdateSM, sm.KickMapApply],
         'lemmas': [sm.lemmas_fp, sm.lemmas_c03],
         'level': 'other',
         'claim': 'the ingredients of the stationary (Haissinski) relation are proved on the code: within one step the wake potential is computed from the projection left by the previous step, then wake kick, RF kick, drift, '
@@ -222,7 +223,8 @@ PROPERTIES = {
         'technique': TECH,
     },
     'C12': {
-        'units': [mainloop.MainLoop, mainspec.MainWiring, ps.Integrate, ps.Variance, ps.UpdateYProjection, ps.UpdateXProjection, ef.UpdateCSR, sm.KickMapApply, sm.FokkerPlanckApply, sm.IdentityApply, dynrf.DynApply, dynrf.DynCalcKick],
+        'main_scenarios': ['cadence'],
+        'units': [mainloop.MainLoop, mainspec.MainWiring, io.ProgramOptionsGetters, ps.Integrate, ps.Variance, ps.UpdateYProjection, ps.UpdateXProjection, ef.UpdateCSR, sm.KickMapApply, sm.FokkerPlanckApply, sm.IdentityApply, dynrf.DynApply, dynrf.DynCalcKick],
         'lemmas': [],
         'level': 'other',
         'claim': 'one loop iteration maps the physics state (three grids, x-projection, wake offsets, tracked particles) to the same value whether or not the output block runs: proved on main by a relational invariant over event contracts; '
@@ -233,6 +235,7 @@ PROPERTIES = {
         'technique': TECH,
     },
     'C14': {
+        'main_scenarios': ['interrupt', 'records'],
         'units': [mainloop.MainLoop, sig.SigintHandler, sig.SignalSetup],
         'lemmas': [],
         'level': 'other',
@@ -244,7 +247,8 @@ PROPERTIES = {
         'technique': TECH,
     },
     'C10': {
-        'units': [mainloop.MainLoop, mainspec.MainWiring, ps.UpdateXProjection, ps.UpdateYProjection, ps.Integrate, ps.Variance, ef.WakePotential, ef.UpdateCSR, ef.ElectricFieldScale, io.HDF5FileSources, io.HDF5AppendField, io.HDF5AppendTracks, io.ReadPhaseSpace, io.MakePSFromHDF5],
+        'main_scenarios': ['records'],
+        'units': [mainloop.MainLoop, mainspec.MainWiring, io.ProgramOptionsGetters, ps.UpdateXProjection, ps.UpdateYProjection, ps.Integrate, ps.Variance, ef.WakePotential, ef.UpdateCSR, ef.ElectricFieldScale, io.HDF5FileSources, io.HDF5AppendField, io.HDF5AppendTracks, io.ReadPhaseSpace, io.MakePSFromHDF5],
         'lemmas': [],
         'level': 'other',
         'claim': 'partial: every record of a multi-row dataset takes row b from row b of its source (dataset extents vs buffer layout; for /CSR/Spectrum proved on the row copy of append(ElectricField*)) and no append reads beyond its source buffer; at every output event and at exit the CSR, wake-potential and particle datasets receive as many records as the time axis; the time value of the final record is simulationstep/steps; the derived quantities appended are the ones '
@@ -255,7 +259,7 @@ PROPERTIES = {
         'technique': TECH,
     },
     'C11': {
-        'units': [io.ReadPhaseSpace, io.MakePSFromHDF5, mainspec.MainStartDistribution],
+        'units': [io.ReadPhaseSpace, io.MakePSFromHDF5, mainspec.MainStartDistribution, io.ProgramOptionsGetters],
         'native_sweep': {'harness': 'h5start_replay', 'runs': [['all']], 'hdf5': True},
         'lemmas': [],
         'level': 'other',
@@ -270,7 +274,7 @@ PROPERTIES = {
         'technique': TECH,
     },
     'C13': {
-        'units': [io.ProgramOptionsSave],
+        'units': [io.ProgramOptionsSave, io.ProgramOptionsGetters],
         'lemmas': [],
         'level': 'other',
         'claim': 'writer logic only: every option registered in the constructor (name and value type as resolved by clang) that is not in the writer own skip list has a value type the writer can write; alpha0 is replaced by 0 only when a synchrotron frequency is given; every legacy alias the writer skips has its value copied by parse() into the stored value of the canonical option bound to the same member; entries are left out by name only (or, if by their defaulted flag, no stored value is modified in place); '
